@@ -23,8 +23,31 @@ def close(a, b, mag):
     return a == b or abs(a - b) <= 1e-8 * (1.0 + mag)
 
 
+def fixed_flow_origin(M):
+    """A user-defined origin kind (README, 'Extensions': the blocks are meant to be sub-classed): no queue,
+    it feeds a prescribed boundary flow through the public `get_flow` hook."""
+
+    class FixedFlowOrigin(M.Origin):
+        def __init__(self, flow, name=None):
+            super().__init__(name)
+            self.flow = flow
+
+        def get_flow(self, net, engine=None, **_):
+            return self.flow
+
+    return FixedFlowOrigin
+
+
 def one(M, rec, rng, g, desc, pars, st):
     cand = CC.candidate_params(desc, pars)
+    custom = {}
+    if rng.random() < 0.3:
+        cls = fixed_flow_origin(M)
+        for o in desc["origins"]:
+            if o["kind"] == "ideal":
+                custom[o["id"]] = cls(round(rng.uniform(200.0, 3000.0), 1), name=o["name"])
+        if custom:
+            rec.count("cases_with_user_defined_origin_kind")
     mode = rng.random()
     keys = []
     if mode < 0.35:
@@ -34,7 +57,7 @@ def one(M, rec, rng, g, desc, pars, st):
     # next-state clamps would break the w+/rho+ identities: only initial options
     opts = {o: True for o in ("positive_init_speed", "positive_init_density", "positive_init_queue") if rng.random() < 0.2}
     try:
-        case = CC.CompileCase(M, rng, desc, pars, st, keys, opts, own_symbols=(rng.random() < 0.5))
+        case = CC.CompileCase(M, rng, desc, pars, st, keys, opts, own_symbols=(rng.random() < 0.5), reuse=custom)
     except Exception as e:
         rec.count("symbolic_step_failed")
         rec.seen("failed", repr(e)[:100])
@@ -79,6 +102,18 @@ def one(M, rec, rng, g, desc, pars, st):
                 oid = o["id"]
                 lk = outs[o["node"]][0]
                 rec.seen("origin_kinds", (o["kind"], o["eq"], compact))
+                if oid in custom:
+                    # the reported flow is the prescribed one, and it is the one that entered the first segment
+                    flow = custom[oid].flow
+                    kk = lk["lam"] * lk["L"] / T
+                    used = (xn[lk["id"]]["rho"][0] - vals[lk["id"]]["rho"][0]) * kk + q[lk["id"]][0]
+                    rec.count("origin_flow_checks")
+                    rec.seen("origin_kinds", ("user-defined", None, compact))
+                    if not close(qo[oid], flow, abs(flow)) or not close(used, qo[oid], abs(flow) + abs(q[lk["id"]][0]) + abs(xn[lk["id"]]["rho"][0]) * kk):
+                        rec.violation(f"{PROP}:compact={compact}: reported flow of a user-defined (queue-less, prescribed-flow) origin is not the flow used in the density update of its link",
+                                      dict(ctx, origin=oid, reported=qo[oid], prescribed=flow, inflow_inferred_from_the_density_update=used))
+                        return
+                    continue
                 if o["kind"] == "ideal":
                     exp = vals[lk["id"]]["rho"][0] * vals[lk["id"]]["v"][0] * lk["lam"]
                     rec.count("origin_flow_checks")
